@@ -558,11 +558,13 @@ pub struct Generated {
 pub fn run_generated(seed: u64, profile: Profile, enabled: &[String], keep_log: bool) -> Generated {
     let mut r = Rng::new(seed);
     let (cfg, knobs) = draw(&mut r, profile, enabled);
+    crate::abort::tee_cfg("E1", profile.name(), &serde_json::to_value(&cfg).unwrap());
     let mut w = World::new(cfg.clone(), keep_log);
     let mut cmds: Vec<Cmd> = Vec::new();
     let mut g = Gen { r, k: knobs, restarts: 0, val_ctr: 0, captured: Vec::new() };
     let mut violation = None;
     let mut run = |w: &mut World, cmds: &mut Vec<Cmd>, c: Cmd| -> bool {
+        crate::abort::tee_cmd(&c);
         let res = w.apply(&c);
         cmds.push(c);
         match res {
